@@ -42,7 +42,7 @@ def Id.lt (a b : Id) : Bool := a.kind.idx < b.kind.idx || (a.kind.idx == b.kind.
 
 /-- Engine state of a row (`store/rows.rs state::*`). -/
 inductive St where
-  | pending | active | archived | tombstoned
+  | pending | active | archived | tombstoned | purged
   deriving DecidableEq, Repr, Inhabited
 
 structure Row where
@@ -68,7 +68,7 @@ structure Elem where
   deriving DecidableEq, Repr, Inhabited
 
 inductive Op where
-  | create | update | archive | tombstone | retract
+  | create | update | archive | tombstone | retract | purge
   deriving DecidableEq, Repr, Inhabited
 
 structure Change where
@@ -129,6 +129,9 @@ structure Staged where
   isNew : Bool
   changed : Bool
   op : Op
+  /-- `Transaction::purges` has an entry for this id: the commit destroys the version rows the
+  element had when the purge was staged -/
+  erase : Bool := false
   deriving DecidableEq, Repr
 
 structure Tx where
@@ -290,6 +293,9 @@ inductive Clause where
   /-- `RETRACT ASSERTION target [EXPECT STATE status]`; an Assertion's lifecycle status is its `val`
   (0 = active, 1 = retracted) -/
   | retract (t : Ref) (expect : Option Nat)
+  /-- `PURGE target [REFERENCE POLICY …] CONFIRM "PURGE"`; `bad`: refused while it is staged (still
+  referenced under `deny_if_referenced`, legal hold, approval) -/
+  | purge (t : Ref) (bad : Bool)
   deriving Repr
 
 /-- `clauses::plan_pass` -/
@@ -382,6 +388,20 @@ def pRetract (id : Id) (expect : Option Nat) (s : Store) (tx : Tx) : PS :=
       else if x.row.val = 1 then .ok s tx1
       else .ok s (markChanged tx1 id { x with row := { x.row with val := 1 } } .retract)
 
+/-- `PURGE` of one target (`clauses::purge`, `governance::purge::stage`, `Transaction::stage_purge`):
+the target is loaded; a dry run only warns; otherwise the staged row becomes the identity stub
+(content gone, state `purged`, version kept so that the commit bumps it once) and the element's
+version rows are scheduled for destruction at commit -/
+def pPurge (id : Id) (bad : Bool) (s : Store) (tx : Tx) : PS :=
+  match load s tx id with
+  | .error e => .fail s tx e
+  | .ok (tx1, x) =>
+      if tx1.dry then .ok s tx1
+      else if bad then .fail s tx1 .invalid
+      else
+        let y : Staged := { x with row := {}, state := .purged, changed := true, op := .purge, erase := true }
+        .ok s { tx1 with staged := stSet tx1.staged id y }
+
 /-- mint a shell, then continue with its id -/
 def pMint (k : Kind) (cont : Id → Store → Tx → PS) (s : Store) (tx : Tx) : PS :=
   cont (mintShell s tx k).2.2 (mintShell s tx k).1 (mintShell s tx k).2.1
@@ -445,6 +465,10 @@ def applyClause (c : Clause) (s : Store) (tx : Tx) : PS :=
       match resolve tx t with
       | .error e => .fail s tx e
       | .ok id => pRetract id expect s tx
+  | .purge t bad =>
+      match resolve tx t with
+      | .error e => .fail s tx e
+      | .ok id => pPurge id bad s tx
 
 def declareAll (cs : List Clause) (p : PS) : PS :=
   cs.foldl (fun p c => p.andThen (declareClause c)) p
@@ -486,6 +510,16 @@ def checkKeys (s : Store) : List (Id × Staged) → List (Nat × Nat) → Except
           | .ok none => checkKeys s r ((x.row.ty, x.row.key) :: claimed)
       else checkKeys s r claimed
 
+/-- a purge destroys every version row of one element (`remove_versions` of the rows counted when
+the purge was staged: all rows the element had before this statement) -/
+def purgeVersions (log : List VEntry) (id : Id) : List VEntry := log.filter (fun v => v.id ≠ id)
+
+/-- the same for several elements -/
+def eraseAll (ids : List Id) (log : List VEntry) : List VEntry := log.filter (fun v => !ids.contains v.id)
+
+/-- the ids whose version rows a commit over `m` destroys -/
+def erasedIds (m : List (Id × Staged)) : List Id := (m.filter (fun p => p.2.changed && p.2.erase)).map (·.1)
+
 /-- the unique `tuple_key` index of the propositions collection, as `Collection::update` enforces
 it: another row already carries the key -/
 def tupleTaken (s : Store) (i : Id) (row : Row) : Bool :=
@@ -505,8 +539,10 @@ def writeOne (s : Store) (seq : Nat) (i : Id) (x : Staged) : Except Err Store :=
         let c := changeOf i x
         let e : Elem := { row := x.row, version := c.version,
                           state := if x.state = .pending then .active else x.state, seq := seq }
+        -- `remove_versions` of a staged purge sits right before the row's own write (when the source has it there)
+        let old := if x.erase = true ∧ Gen.NexusOrder.purgeErasureInLoop = true then purgeVersions s.vlog i else s.vlog
         .ok { s with elems := setElem s.elems i (some e),
-                     vlog := { id := i, version := c.version, seq := seq, op := x.op, elem := e } :: s.vlog }
+                     vlog := { id := i, version := c.version, seq := seq, op := x.op, elem := e } :: old }
 
 /-- the write loop: stops at the first failing `put`, *keeping* what was already written -/
 def writeLoop (seq : Nat) : Store → List (Id × Staged) → List Change → Store × List Change × Option Err
@@ -552,6 +588,8 @@ def commitStep (discardOnCheckFailure : Bool) (tx : Tx) (time : Nat) (c : CS) (s
   | some _ => c
   | none =>
     match st with
+    | .eraseVersions =>     -- only when the source destroys the staged purges' version rows outside the loop
+        { c with s := { c.s with vlog := eraseAll ((tx.staged.filter (fun p => p.2.erase)).map (·.1)) c.s.vlog } }
     | .governance => c      -- classification / lineage stamping: edits staged rows' governance block only
     | .refClosure => c      -- same-Space closure: one Space in this model, never fails
     | .keyIdentity =>
@@ -641,8 +679,6 @@ def elementAt : List VEntry → Id → Nat → Option VEntry
         | some b => if newer v b then some v else some b
       else elementAt r id c
 
-/-- a purge destroys every version row of one element (`remove_versions`) -/
-def purgeVersions (log : List VEntry) (id : Id) : List VEntry := log.filter (fun v => v.id ≠ id)
 
 /-- `seq_of_transaction` (`tx_id = <space>#<seq>`): the journal row with that sequence -/
 def seqOfTx (j : List JEntry) (tx : Nat) : Option Nat := (j.find? (fun e => e.seq == tx)).map (·.seq)
